@@ -406,3 +406,66 @@ Section Reader2.
     - intros [fs [Hb Hd]]. destruct (from_binary_complete _ _ _ _ Hb Hd) as [cs [H _]]. exists cs. exact H.
   Qed.
 End Reader2.
+
+(* ---- consequences used by Properties/C05.v ---------------------------------------- *)
+Theorem content_is_fields dec mac check b off k cs :
+  from_binary dec mac (mkR b off) check k = Ok cs ->
+  forall fs, is_bf3_body_gen mac check off k fs b -> Forall2 (field_comp dec k) fs cs.
+Proof.
+  intros H fs Hfs.
+  destruct (from_binary_sound dec mac check b off k cs H) as [fs' [Hb Hc]].
+  rewrite (fields_unique mac check off k b fs fs' Hfs Hb). exact Hc.
+Qed.
+
+Theorem content_declared dec mac check b off k cs fs :
+  from_binary dec mac (mkR b off) check k = Ok cs -> is_bf3_body_gen mac check off k fs b ->
+  Forall (fun f => 1 <= ef_actual (fr_entry f)) fs ->
+  Forall2 (fun f c => c_desc c = ef_tags (fr_entry f) /\ c_alen c = ef_actual (fr_entry f) /\
+                      c_enc c = enc_tagged (ef_tags (fr_entry f)) /\
+                      (if c_enc c then dec k None (fr_payload f) = Ok (c_blob c)
+                       else c_blob c = fr_payload f)) fs cs.
+Proof.
+  intros H Hfs Hd.
+  pose proof (content_is_fields dec mac check b off k cs H fs Hfs) as Hc.
+  clear H Hfs. induction Hc as [|f c fs cs [H1 [H2 H3]] _ IH]; [constructor|].
+  inversion Hd as [|? ? Hd1 Hd']; subst. constructor; [|apply IH, Hd'].
+  split; [exact H1|]. split.
+  - rewrite H3. unfold declared. destruct (ef_actual (fr_entry f) =? 0) eqn:Ez; [|reflexivity].
+    apply N.eqb_eq in Ez. lia.
+  - destruct (enc_tagged (ef_tags (fr_entry f))); destruct H2 as [H2 H2']; rewrite H2'; auto.
+Qed.
+
+(* file level: what read_file does with the binary once the text is decoded *)
+Definition read_bf3_binary dec mac (bin : bytes) (check : bool) (k : bytes) : result (list comp) :=
+  let r := new_reader bin in
+  let* (hd, r) := rd_read (blen BF3_FILE_SIG) r in
+  if negb (bytes_eqb hd BF3_FILE_SIG) then Err EBf3 else from_binary dec mac r check k.
+
+Theorem read_file_is dec mac t check k :
+  read_file dec mac t check k =
+  (let* (bin, cm) := parse_bf3_file t in
+   let* cs := read_bf3_binary dec mac bin check k in Ok (mkBf3 cm cs)).
+Proof.
+  unfold read_file, read_bf3_binary. destruct (parse_bf3_file t) as [[bin cm]|]; [|reflexivity].
+  cbn [bind]. destruct (rd_read (blen BF3_FILE_SIG) (new_reader bin)) as [[hd r]|]; [|reflexivity].
+  cbn [bind]. destruct (negb (bytes_eqb hd BF3_FILE_SIG)); reflexivity.
+Qed.
+
+Theorem file_accept_iff dec mac bin k :
+  (exists cs, read_bf3_binary dec mac bin true k = Ok cs) <->
+  (exists fs, is_bf3_file mac k fs bin /\ decryptable dec k fs).
+Proof.
+  unfold read_bf3_binary, is_bf3_file, new_reader.
+  assert (Hs : BF3_SIGNATURE = BF3_FILE_SIG) by reflexivity.
+  split.
+  - intros [cs H].
+    destruct (rd_read (blen BF3_FILE_SIG) {| rest := bin; pos := 0 |}) as [[hd r]|] eqn:Er; cbn [bind] in H; [|discriminate].
+    destruct (bytes_eqb hd BF3_FILE_SIG) eqn:Eh; cbn [negb] in H; [|discriminate].
+    apply bytes_eqb_eq in Eh. subst hd. apply rd_read_ok in Er as [R [_ P]]. cbn [rest pos] in R, P.
+    rewrite (reader_eta r), P in H. change (0 + blen BF3_FILE_SIG) with (blen BF3_SIGNATURE) in H.
+    destruct (proj1 (from_binary_accept_iff dec mac true _ _ k) (ex_intro _ cs H)) as [fs [Hb Hd]].
+    exists fs. split; [|exact Hd]. exists (rest r). split; [rewrite Hs; exact R|exact Hb].
+  - intros [fs [[body [-> Hb]] Hd]]. rewrite Hs, rd_read_app. cbn [bind]. rewrite bytes_eqb_refl. cbn [negb].
+    rewrite <- Hs. change (0 + blen BF3_SIGNATURE) with (blen BF3_SIGNATURE).
+    apply (from_binary_accept_iff dec mac true). exists fs. split; assumption.
+Qed.
